@@ -146,6 +146,8 @@ fn me_layout(bytes: &[u8], leaf: &mut String, fields: &mut Vec<FieldDef>, may_re
             dispatch.push((M + 6, 3));
             leaf.push_str(&format!("/TC19/ST{st}"));
             fields.push(f("me.vel.st", M + 6, 3, 7));
+            // which payload variant the subtype selects (0 reserved, 1-2 ground speed, 3-4 airspeed, 5-7 reserved)
+            fields.push(f("me.vel.kind", M + 6, 3, 7));
             fields.push(f("me.vel.nac_v", M + 11, 3, 7));
             match st {
                 1 | 2 => {
